@@ -212,10 +212,23 @@ Definition rule_patterns (rule : json) : option json :=
   | _ => None
   end.
 
+(** isScheduled (after the repair of D66): the member is there and it is
+    neither null nor the empty string -- a missing, null or empty schedule is no
+    schedule, as in RuleFromMap ([rule_from_map] below).  (`schedule != nil &&
+    schedule != ""` on an interface value: anything that is not the string ""
+    is different from it, also numbers, booleans, maps, arrays.)  A scheduled
+    rule is not in the rule index. *)
 Definition is_scheduled (rule : json) : bool :=
-  match jget "schedule" rule with Some _ => true | None => false end.
+  match jget "schedule" rule with
+  | None | Some JNull => false
+  | Some (JStr sch) => negb (String.eqb sch "")
+  | Some _ => true
+  end.
 
+(** unindexRule (after the repair of D66): nothing for a scheduled rule, which
+    was never indexed whatever its 'when' is. *)
 Definition unindex_rule (s : state) (id : string) (rule : json) : state :=
+  if is_scheduled rule then s else
   match rule_patterns rule with
   | None => s
   | Some p => set_pindex s (fst (pi_rem (st_pindex s) p id))
